@@ -303,9 +303,109 @@ def r17_5(prog: Program, chk: Check) -> None:
                "a try/int()/except classification accepts '+1', ' 0', '0_0', '-1' as indices; CPython looks those up as keyword names")
 
 
+# ------------------------------------------------------------------- R17.6
+EXTRA_TEMPLATES = ["{0} {}", "{} {0}", "{}{0}", "{0}{}", "{a}{}", "{0:{}}", "{:{0}}", "{0:{1}}", "{a[0]}", "{a[]}", "{a.b}", "{a.0}", "{0!r:x}", "{a!r}", "{{}}", "{{{0}}}", "{0.a[1]!r:x}", "{a]}", "{a[0]x}", "{a[0].b}", "{+1}", "{ 0}", "{0_0}", "{-1}", "{1 }", "{\u00b2}", "{\u0663}", "{0}{+1}", "{a a}", "{a-b}", "{:{{}", "{:{{}}}", "{:{}}", "{:}}", "{[]}", "{0[]}", "{a[]}"]
+
+# documented / deliberate strictness: reports where CPython formats fine
+STRICTER = {
+    "were not used": "unused arguments are a documented lint of pyanalyze, not a CPython error",
+    "invalid attribute": "an attribute name that is not an identifier cannot be found on any ordinary object (CPython fails with AttributeError for all but exotic __getattr__ objects)",
+}
+
+
+def _format_chunk(args):
+    part, nparts, max_len = args
+    import itertools
+
+    from ..model import Program as _P
+    from . import format_model as fm
+
+    model = fm.FormatModel(_P())
+    combos = [(0, ()), (1, ()), (2, ()), (0, ("a",)), (1, ("a",))]
+    templates = ["".join(t) for L in range(0, max_len + 1) for t in itertools.product(fm.ALPHABET, repeat=L)] + EXTRA_TEMPLATES
+    n = 0
+    classes: Dict[str, Dict[str, object]] = {}
+
+    def note(key: str, bad: bool, detail) -> None:
+        c = classes.setdefault(key, {"n": 0, "bad": 0, "witness": []})
+        c["n"] += 1  # type: ignore[operator]
+        if bad:
+            c["bad"] += 1  # type: ignore[operator]
+            w = c["witness"]
+            w.append(detail)  # type: ignore[union-attr]
+            w.sort(key=lambda d: (len(d["template"]), d["template"], d["positional_args"]))  # type: ignore[union-attr]
+            del w[12:]  # type: ignore[arg-type]
+
+    for idx, t in enumerate(templates):
+        if idx % nparts != part:
+            continue
+        for nargs, kws in combos:
+            n += 1
+            errs = model.call_errors(t, nargs, kws)
+            oc, msg = fm.cpython_outcome(t, nargs, kws)
+            d = {"template": t, "positional_args": nargs, "keyword_args": list(kws), "pyanalyze_reports": errs[:2], "cpython": f"{oc}: {msg}" if msg else oc}
+            crashed = any(e.startswith("<crash") for e in errs)
+            note("analysis-does-not-crash", crashed, d)
+            if oc in ("template-error", "missing-argument"):
+                cat = msg.split(":")[0] if oc == "missing-argument" else next((te for te in fm.TEMPLATE_ERRORS if te in msg), "other")
+                note(f"reported-when-cpython-raises::{cat}", not errs, d)
+            elif oc == "ok":
+                real = [e for e in errs if not any(k in e for k in STRICTER)]
+                note("silent-when-cpython-formats (outside the listed stricter rules)", bool(real), d)
+    return n, classes
+
+
+def r17_6(prog: Program, chk: Check) -> None:
+    import multiprocessing as mp
+    import os as _os
+
+    max_len = 3 if _os.environ.get("VERIF_SELFTEST") else 5 if chk.tier == "thorough" else 4
+    chk.rule(
+        "R17.6",
+        "str.format as a finite model: parse_format_string, _parse_children, _parse_replacement_field, the _ParserState methods, the field iterators and "
+        f"_str_format_impl are interpreted from their AST for every template of up to {max_len} characters over the alphabet {{ }} a 0 . [ ] ! r x : (plus a list of longer ones) "
+        "with 0-2 positional and 0-1 keyword arguments; a diagnostic is shown whenever CPython's str.format raises a template or missing-argument error on universal "
+        "argument values, and none (outside the listed stricter rules) when it formats",
+        floor=6,
+    )
+    procs = 2 if _os.environ.get("VERIF_SELFTEST") else min(16, _os.cpu_count() or 1)
+    tasks = [(i, procs * 4, max_len) for i in range(procs * 4)]
+    with mp.get_context("fork").Pool(procs) as pl:
+        results = pl.map(_format_chunk, tasks)
+    total = 0
+    merged: Dict[str, Dict[str, object]] = {}
+    for n, classes in results:
+        total += n
+        for k, c in classes.items():
+            m = merged.setdefault(k, {"n": 0, "bad": 0, "witness": []})
+            m["n"] += c["n"]  # type: ignore[operator]
+            m["bad"] += c["bad"]  # type: ignore[operator]
+            m["witness"] = sorted(list(m["witness"]) + list(c["witness"]), key=lambda d: (len(d["template"]), d["template"], d["positional_args"]))[:12]  # type: ignore[arg-type]
+    chk.model_evaluations += total
+    chk.analysed["format_model"] = {"calls_interpreted": total, "max_template_length": max_len, "alphabet": "{}a0.[]!rx:", "stricter_rules": STRICTER}
+    site = prog.site("format_strings", prog.func("format_strings", "parse_format_string"))
+    for k, c in sorted(merged.items()):
+        wit = c["witness"]
+        if int(c["bad"]) == 0:  # type: ignore[arg-type]
+            chk.ob("R17.6", f"format_strings::format-model::{k}", True, site, f"{c['n']} calls, none disagree")
+            continue
+        # failing class: one obligation per failing template, so that a recorded finding names its input
+        seen_t = []
+        for w in wit:  # type: ignore[union-attr]
+            if w["template"] in seen_t:
+                continue
+            seen_t.append(w["template"])
+            chk.ob("R17.6", f"format_strings::format-model::{k}::template={w['template']!r}", False, site,
+                   f"\"{w['template']}\".format({w['positional_args']} positional, keywords {w['keyword_args']}): pyanalyze shows {w['pyanalyze_reports'] or 'nothing'}, CPython: {w['cpython']}", witness=w)
+        rest = int(c["bad"]) - len(wit)  # type: ignore[arg-type]
+        if rest > 0:
+            chk.ob("R17.6", f"format_strings::format-model::{k}::and-more", False, site, f"{rest} further disagreeing calls in this class (of {c['n']})")
+
+
 def run(prog: Program, chk: Check) -> None:
     r17_1(prog, chk)
     r17_2(prog, chk)
     r17_3(prog, chk)
     r17_4(prog, chk)
     r17_5(prog, chk)
+    r17_6(prog, chk)
